@@ -32,7 +32,7 @@ Section Chunk.
 
   Hypothesis codec_uncompressed : Z.eqb codec E_CARQUET_COMPRESSION_UNCOMPRESSED = true -> forall b, compress b = b.
   Hypothesis codec_roundtrip : Z.eqb codec E_CARQUET_COMPRESSION_UNCOMPRESSED = false ->
-    forall b, decompress (compress b) (len b) = Ok b.
+    forall b, is_bytes b -> len b < 2 ^ 31 -> decompress (compress b) (len b) = Ok b.
   Hypothesis header_roundtrip : forall h rest, parse_header (header h ++ rest) = Ok (core_of h, len (header h)).
   Hypothesis header_small : forall h, len (header h) <= 256.
   Hypothesis header_nonempty : forall h, 0 < len (header h).
@@ -85,7 +85,7 @@ Section Chunk.
                  else decompress comp (len (page_body p))) = Ok (page_body p)).
     { destruct (Z.eqb codec E_CARQUET_COMPRESSION_UNCOMPRESSED) eqn:U.
       - unfold comp. rewrite (codec_uncompressed eq_refl). reflexivity.
-      - unfold comp. apply (codec_roundtrip eq_refl). }
+      - unfold comp. apply (codec_roundtrip eq_refl); [apply (page_body_bytes c p rows I Hn)|exact Hsz]. }
     rewrite D. rewrite Z.eqb_refl. cbn [negb]. rewrite andb_false_r.
     destruct (page_body_roundtrip c p rows Hc I Hne Hn Hsz) as (defs & vals & E & R).
     rewrite E, R. rewrite (pi_num c p rows I). rewrite len_app'. reflexivity.
